@@ -67,6 +67,10 @@ func (c *ContentTypeMismatchError) Error() string {
 
 // An hdr implements Channel. Messages sent on a hdr channel are framed as a
 // header/body transaction, similar to HTTP.
+// maxPrealloc is the largest announced content length for which Recv will
+// allocate its buffer up front.
+const maxPrealloc = 1 << 20
+
 type hdr struct {
 	mtype string
 	ctype string
@@ -141,6 +145,19 @@ func (h *hdr) Recv() ([]byte, error) {
 	// single read to the underlying source.
 	data := h.rbuf
 	if len(data) < size || len(data) > (1<<20) && size < len(data)/4 {
+		if size > maxPrealloc {
+			// Do not trust a large length claim with a large allocation (which
+			// may overflow or exceed what can be allocated at all): read the
+			// body incrementally, so a bogus length costs only what arrives.
+			var body bytes.Buffer
+			if _, err := io.CopyN(&body, h.rd, int64(size)); err != nil {
+				if err == io.EOF && body.Len() != 0 {
+					err = io.ErrUnexpectedEOF
+				}
+				return nil, err
+			}
+			return body.Bytes(), contentErr
+		}
 		data = make([]byte, size*2)
 		h.rbuf = data
 	}
